@@ -127,8 +127,12 @@ def _step(state, instruction, shots):
         if r == 0:
             raise RuntimeError("fault999")
         q, rem = divmod(shots, r)
-        for j, o in enumerate(outs):
-            cnt = q + (1 if j < rem else 0)
+        cnts = [q + (1 if j < rem else 0) for j in range(r)]
+        ex = params.get("counts")
+        if (isinstance(ex, tuple) and len(ex) == r and all(isinstance(c, int) and not isinstance(c, bool) and c >= 0 for c in ex)
+                and sum(ex) == shots):
+            cnts = list(ex)
+        for o, cnt in zip(outs, cnts):
             if cnt:
                 res.append(Branch(state=st2, outcome=oc(o), frequency=Fraction(cnt, shots)))
     else:
